@@ -102,7 +102,7 @@ class Interp(object):
             return v.z != Z.empty_set(v.et.zsort)
         if isinstance(v, VNames):
             return nset(v.z) != Z.empty_set(Z.Str)
-        if isinstance(v, VMap):
+        if isinstance(v, VMap) or getattr(v, 'kind', '') == 'pairs':
             return v.dom != Z.empty_set(v.kt.zsort)
         if isinstance(v, VObj):
             return self.engine.truth_of_obj(ctx, v)
@@ -616,6 +616,8 @@ class Interp(object):
             return self.make_super(ctx, fr, node)
         if fr.spec and isinstance(node.func, ast.Name) and node.func.id == 'old':
             return self.engine.eval_old(ctx, fr, node.args[0])
+        if fr.spec and isinstance(node.func, ast.Name) and node.func.id == 'at_entry':
+            return self.engine.eval_old(ctx, fr, node.args[0], attr='entry')
         fv = self.ev(ctx, fr, node.func)
         args = []
         for a in node.args:
@@ -696,7 +698,7 @@ class Interp(object):
     def getattr(self, ctx, fr, v, name, node=None, default=None):
         """default: None -> AttributeError is raised; else a thunk returning V."""
         v = self.resolve(ctx, v)
-        r = self.models.getattr(self, ctx, fr, v, name, node)
+        r = self.models.getattr_v(self, ctx, fr, v, name, node)
         if r is not None:
             return r
         if default is not None:
